@@ -77,8 +77,10 @@ impl<'a, R: Read> Reader<'a, R> {
         schemata: Option<Vec<&'a Schema>>,
         #[builder(default = is_human_readable())] human_readable: bool,
     ) -> AvroResult<Reader<'a, R>> {
-        let schemata =
-            schemata.unwrap_or_else(|| reader_schema.map(|rs| vec![rs]).unwrap_or_default());
+        // The reader schema must not be used to resolve references inside the *writer* schema: a
+        // named type may be defined differently by the two, and the block decoder would then decode
+        // the written bytes with the reader's definition.
+        let schemata = schemata.unwrap_or_default();
 
         let block = Block::new(reader, schemata, human_readable)?;
         let mut reader = Reader {
